@@ -155,6 +155,42 @@ func installStd(m *Machine) {
 		}
 		return Bool{C: false}
 	}
+	I["errors.As"] = func(r *Run, fr *Frame, a []Value) Value {
+		e := a[0].(Iface)
+		tgt := a[1].(Iface)
+		pt, ok := tgt.T.(*types.Pointer)
+		if !ok || tgt.V.(Ptr) == nil {
+			panic(targetPanic{Str("errors: target must be a non-nil pointer")})
+		}
+		want := pt.Elem()
+		wi, wantIface := want.Underlying().(*types.Interface)
+		for e.T != nil {
+			if wantIface {
+				if types.Implements(e.T, wi) {
+					*tgt.V.(Ptr) = e
+					return Bool{C: true}
+				}
+			} else if types.Identical(e.T, want) {
+				*tgt.V.(Ptr) = e.V
+				return Bool{C: true}
+			}
+			if _, host := e.V.(*HostObj); host {
+				break
+			}
+			ms := r.M.Prog.MethodSets.MethodSet(e.T)
+			sel := ms.Lookup(nil, "Unwrap")
+			if sel == nil {
+				break
+			}
+			out := r.callFn(nil, r.M.Prog.MethodValue(sel), []Value{e.V}, nil)
+			ne, ok := out.(Iface)
+			if !ok {
+				break
+			}
+			e = ne
+		}
+		return Bool{C: false}
+	}
 	str1 := func(f func(string) string) func(r *Run, fr *Frame, a []Value) Value {
 		return func(r *Run, fr *Frame, a []Value) Value { return Str(f(cstr(a[0]))) }
 	}
